@@ -222,9 +222,6 @@ def iter_key_candidates(key, doc):
 
     Returns the appropriate nested value if the key includes dot notation.
     """
-    if not key:
-        return [doc]
-
     if isinstance(doc, list):
         return _iter_key_candidates_sublist(key, doc)
 
@@ -261,7 +258,10 @@ def _iter_key_candidates_sublist(key, doc):
         for sub_doc in doc:
             if isinstance(sub_doc, dict):
                 if sub_key in sub_doc:
-                    ret.extend(iter_key_candidates(key_remainder, sub_doc[sub_key]))
+                    # the empty name is a field name like any other, not the end of the key
+                    ret.extend(
+                        iter_key_candidates(key_remainder, sub_doc[sub_key]) if key_parts
+                        else [sub_doc[sub_key]])
                 else:
                     ret.append(NOTHING)
         return ret
